@@ -366,11 +366,25 @@ pub struct CtxSpec {
     pub funs: Vec<HostFn>,
 }
 
+/// A copy whose list, string and bytes buffers are freshly allocated (maps are shared).
+pub fn unshare(v: &Value) -> Value {
+    match v {
+        Value::List(l) => Value::List(Arc::new(l.iter().map(unshare).collect())),
+        Value::String(s) => Value::String(Arc::new((**s).clone())),
+        Value::Bytes(b) => Value::Bytes(Arc::new((**b).clone())),
+        other => other.clone(),
+    }
+}
+
 impl CtxSpec {
     pub fn build(&self) -> Context<'static> {
         let mut ctx = Context::default();
         for (n, v) in &self.vars {
-            ctx.add_variable_from_value(n.as_str(), v.clone());
+            // the context is the only owner of its list / string / bytes buffers (as it is when a
+            // host hands its data over): in-place shortcuts that look at owner counts must not be
+            // masked by the handle this specification keeps.  Maps stay shared: a rebuilt hash map
+            // would iterate in another order than the one written to the wire.
+            ctx.add_variable_from_value(n.as_str(), unshare(v));
         }
         for f in &self.funs {
             register(&mut ctx, f);
